@@ -449,8 +449,9 @@ class F:
                 return None
             return lits if any(k == key for k, tv in lits) else lits + [(key, truth)]
 
-        def forks(e, lits):
-            """[(literals, expression)] with top-level conditional expressions resolved"""
+        def forks(e, lits, final=False):
+            """[(literals, expression)] with conditional expressions resolved: at the top of an assigned value, and -- for
+            the final (returned) value -- wherever they occur inside it (outside lambdas / comprehensions)"""
             if isinstance(e, ast.IfExp):
                 a, neg = M.polarity(e.test)
                 key = norm(a)
@@ -458,10 +459,31 @@ class F:
                 for branch, tv in ((e.body, not neg), (e.orelse, neg)):
                     l2 = add_lit(lits, key, tv)
                     if l2 is not None:
-                        res += forks(branch, l2)
+                        res += forks(branch, l2, final)
                 return res
             if isinstance(e, ast.Call) and norm(e.func) == "cast" and len(e.args) == 2 and isinstance(e.args[1], ast.IfExp):
-                return forks(e.args[1], lits)
+                return forks(e.args[1], lits, final)
+            if final:
+                inner = next((x for x in walk_local(e) if isinstance(x, ast.IfExp)), None)
+                if inner is not None:
+                    a, neg = M.polarity(inner.test)
+                    key = norm(a)
+                    res = []
+                    for branch, tv in ((inner.body, not neg), (inner.orelse, neg)):
+                        l2 = add_lit(lits, key, tv)
+                        if l2 is None:
+                            continue
+
+                        class Rep(ast.NodeTransformer):
+                            def visit_IfExp(self, node):
+                                if norm(node) == norm(inner):
+                                    return copy.deepcopy(branch)
+                                return self.generic_visit(node)
+
+                        res += forks(Rep().visit(copy.deepcopy(e)), l2, True)
+                        if len(res) > limit:
+                            raise ValueError("too many paths")
+                    return res
             return [(lits, e)]
 
         def dfs(n, lits, seen, env):
@@ -476,7 +498,7 @@ class F:
             if node.kind == "stmt" and isinstance(node.stmt, ast.Return):
                 rv_ = node.stmt.value
                 v = subst(rv_, env) if rv_ is not None else ast.Constant(value=None)
-                for l2, e2 in forks(v, list(lits)):
+                for l2, e2 in forks(v, list(lits), final=True):
                     out.append((l2, e2, n))
                 return
             if n == g.exit:
